@@ -59,8 +59,38 @@ RULE = ("cases: the real Tuner.run() with StoreResultsCallback (or SimulatorCall
         "calls of metric_name_mode; non-trivial iff at least 3 rows were stored and at least 2 trials reported")
 
 
+def gen_resume_case(rng, tier):
+    """runs in which trials are paused and resumed with a CHANGED configuration (promotion-type Hyperband rewrites the
+    max-resource entry of the configuration at every promotion; the PRNG scheduler resumes with new values): the rows
+    written after the resume carry the configuration the trial then runs with"""
+    while True:
+        spec = loop.gen_spec(rng, tier)
+        if spec["backend"] == "script":
+            break
+    if rng.random() < 0.6:
+        spec["scheduler"] = {"kind": "hb", "type": rng.choice(["promotion", "promotion", "cost_promotion", "rush_promotion"]),
+                             "modes": rng.choice(["min", "max"]), "reduction_factor": rng.choice([2, 3]), "brackets": 1,
+                             "max_resource_attr": True}
+        if spec["scheduler"]["type"] == "cost_promotion":
+            spec["backend_params"]["style"] = "cost"
+    else:
+        spec["scheduler"] = {"kind": "script", "params": {"p_stop": 0.0, "p_pause": 0.3, "p_resume": 0.6, "p_ckpt": 0.0,
+                                                         "max_suggest": None, "p_removable": 0.0}, "ckpt_mixin": False,
+                             "modes": rng.choice(["min", "max"])}
+    spec["max_t"] = 9
+    spec["n_workers"] = rng.randint(1, 4)
+    spec["criterion"] = {"max_num_evaluations": rng.randint(30, 45)}
+    spec["inject"] = None
+    spec["backend_params"].update({"p_fail": 0.0, "p_extstop": 0.0, "short_runs": None})
+    spec["cb_store"] = True
+    spec["csv"] = True
+    return spec
+
+
 def gen_cases(rng, tier):
     n = 100 if tier == "quick" else 2000
+    for _ in range(14 if tier == "quick" else 200):
+        yield gen_resume_case(rng, tier)
     for _ in range(n):
         spec = loop.gen_spec(rng, tier)
         spec["cb_store"] = True
